@@ -19,6 +19,8 @@ def run(tier, rep):
     wide = ["k%s" % ch for ch in "abcdefghijklmn"] + ["type", "Type", "a-rather-long-hyphenated-element-name", "ARatherLongCamelCaseElementName"]
     rc.random_trees(rep, "C04", tier, rc.C04_TAGS, n=20 if tier == "quick" else 500, ops=80, pool=wide, root_bias=60, pool_all=True, tag="wide")
     rc.boundary_sessions(rep, "C04", tier, rc.C04_TAGS, n=18 if tier == "quick" else 216)
+    # "all documents and document sequences": trees that come out of the parser, including documents it should not accept
+    rc.parsed_sessions(rep, "C04", tier, rc.C04_TAGS)
     rep.add(distinct_nontrivial=rep.coverage.get("trees_rendered", 0), rule=RULE, exhaustive=False,
             checker_cmd="tlc MC_ElementApi.tla (per pool) ; tlc RenderTrace.tla (judging)")
     rep.assumptions += ["'syntactically valid sequence of struct items' is reduced to: the output fits the fixed template "
